@@ -11,6 +11,7 @@ import (
 	"compress/gzip"
 	"encoding/json"
 	"fmt"
+	"io"
 	"net/http"
 	"os"
 	"path/filepath"
@@ -321,7 +322,8 @@ func prepare(sp *Spec) *Expect {
 			putOld()
 		}
 		ex.NewBytes = content("NEW", sc.New)
-		ex.TempLocs = []string{filepath.Dir(l.Dest)}
+		// the signature file is published with renameio.WriteFile, which stages its temporary file in $TMPDIR or next to the destination
+		ex.TempLocs = []string{filepath.Dir(l.Dest), l.SysTmp}
 		ex.TempTrees = []string{l.RegTmp}
 	case opUnpackZip:
 		mustMkdir(l.RegTmp, 0o700)
@@ -355,6 +357,26 @@ func prepare(sp *Spec) *Expect {
 		panic("unknown op " + sc.Op)
 	}
 	return ex
+}
+
+type fullBodyTransport struct{ rt http.RoundTripper }
+
+func (t fullBodyTransport) RoundTrip(req *http.Request) (*http.Response, error) {
+	resp, err := t.rt.RoundTrip(req)
+	if err == nil {
+		resp.Body = &fullBody{resp.Body}
+	}
+	return resp, err
+}
+
+type fullBody struct{ io.ReadCloser }
+
+func (b *fullBody) Read(p []byte) (int, error) {
+	n, err := io.ReadFull(b.ReadCloser, p)
+	if err == io.ErrUnexpectedEOF {
+		err = io.EOF
+	}
+	return n, err
 }
 
 func mark(path string) { _ = syscall.Access(path, 0) }
@@ -452,7 +474,9 @@ func driverMain(specFile string) int {
 				fmt.Println("DRIVER-ERROR storage path mismatch")
 				return 3
 			}
-			client := &http.Client{}
+			// the body is handed to fetchFile in full 32 KiB pieces, so that the number
+			// of write calls does not depend on how the data arrives from the socket
+			client := &http.Client{Transport: fullBodyTransport{http.DefaultTransport}}
 			op = func() error { return updater.VerifFetchFile(reg, rv, client) }
 		case opUnpackZip:
 			op = func() error { return reg.UnpackResources() }
